@@ -27,7 +27,10 @@ TraceInit == TLCSet(1, 0) /\ l = 1 /\ total = PZero /\ pos = PZero /\ ok = FALSE
 TraceOpen ==
   /\ IsEvent("Open")
   /\ LET e == Trace[l] IN
-       IF e.opened
+       IF e.huge    \* more data than 32-bit sector numbers of this model can express: refused, or announced at least that much
+       THEN /\ (e.opened => PLe(<<2145386496, 0>>, e.announced))
+            /\ total' = PZero /\ pos' = PZero /\ ok' = FALSE
+       ELSE IF e.opened
        THEN /\ e.canon = "ok"
             /\ e.total = e.announced
             /\ e.total[2] = 0
